@@ -338,6 +338,9 @@ def run(ctx):
     depth_choices = [1, 2, 2, 3, 3, 4] if ctx.quick() else [2, 3, 3, 4, 5, 6, 8]
     for _ in range(n):
         prog = gen_prog(ctx.rng, kinds, ctx.rng.choice(depth_choices))
+        if prog_size(prog) < 3:
+            # observe the profile after the fragment through a following check
+            prog = {"op": "seq", "a": prog, "b": {"op": "check", "trig": [ctx.rng.choice(kinds)]}}
         r = check_prog(ctx, env, prog, ("random",))
         ctx.count("size=%d" % min(prog_size(prog), 12))
     env.reset()
